@@ -552,7 +552,7 @@ where
                 let kz = k.build();
                 let a = cr("into_affine", || G::op_to_affine(&cp[i]))?;
                 let three = matches!(op, SOp::Precomp3(_, _));
-                let mut pre = vec![G::Aff::zero(); if three { 3 } else { 256 }];
+                let mut pre = scratch_table::<G>(if three { 3 } else { 256 });
                 cp[i] = cr("precomp mul", || {
                     if three {
                         G::op_precomp_3(&a, &mut pre);
